@@ -37,7 +37,7 @@ TRI = ['unset', 'true', 'false']
 def route_sig(r):
     return 'file=%s,env=%s,prog=%s,cfgfile=%s,interval=%s/%s,idfile=%s' % (
         r['file'], r['env'], r['prog'], 'yes' if r['hasFile'] else 'no', r.get('ival', 'custom'), r.get('ivalBy', 'prog'),
-        r.get('idfile', 'ok')) + ',entry=' + r.get('entry', 'api')
+        r.get('idfile', 'ok')) + ',entry=' + r.get('entry', 'api') + ',progAt=' + r.get('progAt', 'before') + ',other=' + r.get('other', 'none')
 
 
 def judge(rep, trace, behaviours, level, stats):
@@ -161,8 +161,22 @@ def doc_enabled(r):
     return True
 
 
+OTHERS = ['none', 'activityOn', 'activityOff', 'full']          # Telemetry!Others
+
+
+def norm(r):
+    r.setdefault('entry', 'api')
+    r.setdefault('progAt', 'before')
+    r.setdefault('other', 'none')
+    return r
+
+
 def feasible(r):
     """Feasible(r) of Telemetry.tla"""
+    if r.get('progAt', 'before') == 'between' and (r['prog'] == 'unset' or r.get('entry', 'api') != 'api'):
+        return False
+    if r.get('other', 'none') != 'none' and not r['hasFile']:
+        return False
     if r['ival'] in ('zero', 'negative') and doc_enabled(r):
         return False
     if r['ivalBy'] == 'file' and (not r['hasFile'] or r['ival'] == 'default'):
@@ -220,7 +234,9 @@ def run(rep, tier, seed, replay):
         return v if v == 'unset' else rng.choice(TRUE_SP if v == 'true' else FALSE_SP)
 
     # the 54 configuration routes; the file / environment values are spelled in one of the accepted ways
-    base = [{'file': sp(f), 'env': sp(e), 'prog': p, 'hasFile': h, 'entry': 'api'}
+    base = [{'file': sp(f), 'env': sp(e), 'prog': p, 'hasFile': h, 'entry': 'api',
+             'progAt': rng.choice(['before', 'between']) if p != 'unset' else 'before',
+             'other': rng.choice(OTHERS) if h else 'none'}
             for f in TRI for e in TRI for p in TRI for h in (True, False)]
     server_routes = []
     # (1) every configuration route with a short interval (set through the file or programmatically), usable id file
@@ -264,17 +280,31 @@ def run(rep, tier, seed, replay):
         r = {'file': rng.choice(FALSE_SP), 'env': v, 'prog': 'unset', 'hasFile': True, 'ival': 'custom', 'ivalBy': 'prog',
              'idfile': 'ok', 'entry': 'api'}
         server_b.append({'id': len(server_b) + 1, 'cfg': {'route': r}, 'steps': list(short)})
+    # (6) the programmatic switch assigned between server.New(cfg) and Start(), against every other route saying "on"
+    for r in ({'file': 'unset', 'env': 'unset', 'hasFile': False, 'ival': 'custom'},
+              {'file': rng.choice(TRUE_SP), 'env': rng.choice(TRUE_SP), 'hasFile': True, 'ival': 'custom'},
+              {'file': 'unset', 'env': 'unset', 'hasFile': False, 'ival': 'zero'}):
+        r = norm(dict(r, prog='false', ivalBy='prog', idfile='ok', progAt='between'))
+        server_b.append({'id': len(server_b) + 1, 'cfg': {'route': r}, 'steps': list(short)})
+    # (7) other settings next to telemetry.* in the same file (activity stream on, a fuller configuration)
+    for r in ({'file': rng.choice(FALSE_SP), 'env': 'unset', 'other': 'activityOn'},
+              {'file': rng.choice(FALSE_SP), 'env': 'unset', 'other': 'full'},
+              {'file': 'unset', 'env': rng.choice(FALSE_SP), 'other': 'activityOn'},
+              {'file': rng.choice(TRUE_SP), 'env': rng.choice(FALSE_SP), 'other': 'full'}):
+        r = norm(dict(r, prog='unset', hasFile=True, ival='custom', ivalBy='file', idfile='ok'))
+        server_b.append({'id': len(server_b) + 1, 'cfg': {'route': r}, 'steps': list(short)})
     # (5) the command line entry point (main.start through the cli.App), with and without --config
     cli_routes = [{'file': 'unset', 'env': rng.choice(FALSE_SP), 'hasFile': False},
                   {'file': 'unset', 'env': rng.choice(FALSE_SP), 'hasFile': True},
                   {'file': rng.choice(TRUE_SP), 'env': rng.choice(FALSE_SP), 'hasFile': True},
                   {'file': rng.choice(FALSE_SP), 'env': 'unset', 'hasFile': True},
                   {'file': 'unset', 'env': 'unset', 'hasFile': False},
-                  {'file': rng.choice(FALSE_SP), 'env': rng.choice(TRUE_SP), 'hasFile': True}]
+                  {'file': rng.choice(FALSE_SP), 'env': rng.choice(TRUE_SP), 'hasFile': True},
+                  {'file': rng.choice(FALSE_SP), 'env': 'unset', 'hasFile': True, 'other': 'activityOn'}]
     if tier != 'quick':
         cli_routes += [{'file': sp(f), 'env': sp(e), 'hasFile': h} for f in TRI for e in TRI for h in (True, False)]
     for r in cli_routes:
-        r = dict(r, prog='unset', ival='default', ivalBy='prog', idfile='ok', entry='cli')
+        r = norm(dict(r, prog='unset', ival='default', ivalBy='prog', idfile='ok', entry='cli'))
         if not feasible(r):
             raise core.Inconclusive('infeasible route generated: %s' % r)
         cli_b.append({'id': len(cli_b) + 1, 'cfg': {'route': r}, 'steps': [{'a': 'LoadConfig'}, {'a': 'Start'}]})
@@ -302,6 +332,10 @@ def run(rep, tier, seed, replay):
                     continue
                 for c in ccycles[:3 if tier == 'quick' else 12]:
                     coll_b.append({'id': len(coll_b) + 1, 'cfg': {'route': r}, 'steps': adapt(c, r)})
+    for b in server_b + coll_b + cli_b:
+        norm(b['cfg']['route'])
+        if not feasible(b['cfg']['route']):
+            raise core.Inconclusive('infeasible route generated: %s' % b['cfg']['route'])
     with core.scratch('c19') as d:
         judge(rep, execute(d, 'collector', coll_b, par, guarded=True), coll_b, 'collector', stats)
         risky = [b for b in server_b if b['cfg']['route']['ival'] in ('zero', 'negative')]
